@@ -73,7 +73,7 @@ def d2(chk, prog):
     for fi, use, kind, why in pdrules.position_label_uses(prog, res, functions={TF, "cnvlib.segmetrics.do_segmetrics", "cnvlib.segmetrics.calc_intervals"}):
         n += 1
         chk.decide(why is None, "index-kind", f"{fi.name}: {kind} used as `{norm(use)[:50]}`", f"{fi.qn}::{norm(use)[:70]}", fi.loc(use), why or "")
-    chk.floor("label uses in transfer_fields", n, 3)
+    chk.floor("label uses in transfer_fields", n, 1)
     fi = prog.fn("cnvlib.segmentation.hmm.segment_hmm")
     tb = Table(chk, "index-kind", "segment_hmm hands squash_by_groups the bins (own log2, one probe each) and a state series on the bins' own index", fi.loc(), fi.qn)
     for has_probes, has_weight in itertools.product([False, True], [False, True]):
